@@ -56,7 +56,7 @@ def run(check):
                   "deployed first, or left free, plus random delay plans; monitor: every exec-start / deploy-call is preceded in the log by the "
                   "production event of everything it refers to, and the logged input equals the reference evaluation over the logged values; plus step inputs with a "
                   "field that cannot be evaluated (the step must not be started without it) and programs with members that are ready from the start under "
-                  "multi-site delay plans; (h) output logging with a slow log target while other steps complete; (i) inputs read from an input file whose scalars a type-resolving "
+                  "multi-site delay plans; (h) output logging with a slow log target while other steps complete; (j) deploy-time expressions that differ between repeated runs and loop items of one prepared workflow; (i) inputs read from an input file whose scalars a type-resolving "
                   "YAML reader would re-type (leading zeros, hex, underscores, yes/no): steps must be given the text / base-ten value the declared schema yields; "
                   "(h) output logging with a slow log target while other steps complete; (i) inputs read from an input file whose scalars a type-resolving YAML reader would re-type (leading zeros, hex, underscores, yes/no); non-trivial = at least one cross-step reference; distinct = (shape, referencing field kinds, consumer-first gating, arrival order)")
     check.assumptions = ["values carry provenance: every scripted step derives its output from its input and its own name"]
@@ -275,11 +275,41 @@ def run(check):
         b = gen.plugin_step("b", gen.tagref("a"), extra_input={"a": dict({"s": Expr(In("s")), "i": Expr(In("i"))}, **({"ls": Expr(In("ls"))} if "ls" in doc else {})), "n": Expr(In("i"))})
         prog = Program([b, a], {"success": {"b": gen.tagref("b"), "all": Expr(In())}}, fsch)
         file_cases.append(({"id": "c02-i%04d" % j, "mode": "engine", "files": prog.files(), "scripts": gen.make_scripts([a, b], {}), "runs": [], "extra": {"engine": {"input_yaml": text}}}, text, doc))
+    # (j) deploy-time expressions whose value differs from run to run of one prepared workflow (repeated Execute calls, items of
+    # a loop): every deployment is made with the configuration its own run evaluated
+    redeploy = []
+    for j in range(check.pick(12, 60)):
+        rng = random.Random(derive_seed(check.seed, "c02-redeploy", j))
+        if j % 2 == 0:
+            a = gen.plugin_step("a", Expr(In("tag")), deploy={"deployer_name": "scripted", "tag": Expr(In("tag"))})
+            prog = Program([a], {"success": {"a": gen.tagref("a")}}, gen.BASE_INPUT)
+            tags = ["R%d_%d" % (j, q) for q in range(rng.choice([2, 3, 4]))]
+            case = {"id": "c02-d%04d" % j, "files": prog.files(), "scripts": gen.make_scripts([a], {}), "runs": [{"input": {"tag": t}, "tag": "r%d" % q} for q, t in enumerate(tags)]}
+            redeploy.append((case, "a", tags, "repeated Execute"))
+        else:
+            w0 = gen.plugin_step("w0", Expr(In("tag")), src="sub_w0", deploy={"deployer_name": "scripted", "tag": Expr(In("tag"))})
+            sub = Program([w0], {"success": {"t": gen.tagref("w0")}}, gen.SUB_INPUT, name="sub.yaml")
+            tags = ["I%d_%d" % (j, q) for q in range(rng.choice([2, 4, 6]))]
+            fe = Step("loop", "foreach", sub=sub, items=Expr(In("items")), parallelism=rng.choice([1, 2, 3]))
+            prog = Program([fe], {"success": {"d": Expr(Ref("loop", "outputs", "success", "data"))}}, gen.BASE_INPUT)
+            case = {"id": "c02-d%04d" % j, "files": prog.files(), "scripts": gen.make_scripts([fe], {}), "runs": [{"input": {"tag": "T", "items": [{"tag": t} for t in tags]}}]}
+            redeploy.append((case, "sub_w0", tags, "loop items"))
     with harness.Runner() as rn:
         runfam.run_and_monitor(check, rn, items, {"C02"}, on_result=on_result, monitor=monitor)
+        dout = rn.run_cases([c for c, _s, _t, _h in redeploy])
         seq_out = rn.run_cases([c for c, _s in seq_cases])
         wout = rn.run_cases([{k: v for k, v in c.items() if k != "what"} for c in whole])
         fout = rn.run_cases([c for c, _t, _d in file_cases])
+    for case, src, tags, how in redeploy:
+        o = dout.get(case["id"], {})
+        check.count()
+        if "result" not in o or o["result"].get("prepare_err") or o["result"].get("parse_err"):
+            check.inconclusive_case(case["id"], str(o.get("death", {}).get("key") or o.get("result", {}).get("prepare_err")))
+            continue
+        got = [(e.get("data") or {}).get("tag") for e in o["result"].get("events") or [] if e["kind"] == "deploy-call" and e["src"] == src and ((e.get("data") or {}).get("nth") or 0) >= 2]
+        if (got != tags) if how == "repeated Execute" else (sorted(got) != sorted(tags)):
+            check.report("deploy@configuration-of-another-run", "%s of one prepared workflow with a deploy-time expression: deployments were made with the configurations %r, the runs evaluated %r" % (how, got, tags), {"case": case})
+        check.nontrivial("redeploy|%s|%d" % (how, len(tags)))
     for case, text, doc in file_cases:
         o = fout.get(case["id"], {})
         check.count()
